@@ -881,4 +881,83 @@ fn process_pending_worker(""")),
       old="""            self.early_terminations.set(dl_info.index);""",
       new="""            let processed = dl_info.index;
             self.early_terminations.set(processed);""", expect=None),
+ # ---------------- provenance tables (partition / deadline / expiration-queue summaries): C02, C04, C15
+ dict(id='C02-missed-post-ignores-unproven', pid=['C02', 'C04'], file='actors/miner/src/partition_state.rs',
+      old="""        let power_delta = &self.unproven_power - &new_faulty_power;""",
+      new="""        let power_delta = new_faulty_power.clone().neg();""", expect=r'summary:partition_state::Partition::record_missed_post:ret:0'),
+ dict(id='C04-terminate-keeps-recovering-power', pid=['C04', 'C02'], file='actors/miner/src/partition_state.rs',
+      old="""        self.recovering_power -= &removed_recovering;
+        self.unproven -= &unproven_nos;""",
+      new="""        self.unproven -= &unproven_nos;""", expect=r'summary:partition_state::Partition::terminate_sectors:memo:Partition.recovering_power'),
+ dict(id='C02-add-faults-double-counts-unproven', pid=['C02', 'C04'], file='actors/miner/src/partition_state.rs',
+      old="""            self.unproven_power -= &lost_unproven_power;
+            power_delta += &lost_unproven_power;""",
+      new="""            self.unproven_power -= &lost_unproven_power;""", expect=r'summary:partition_state::Partition::add_faults:ret:0'),
+ dict(id='C04-expset-swapped-power-args', pid=['C04', 'C02'], file='actors/miner/src/expiration_queue.rs',
+      old="""                &early_sectors,
+                &PowerPair::zero(),
+                &rescheduled_power,
+                &TokenAmount::zero(),
+                &rescheduled_daily_fee,""",
+      new="""                &early_sectors,
+                &rescheduled_power,
+                &PowerPair::zero(),
+                &TokenAmount::zero(),
+                &rescheduled_daily_fee,""", expect=r'reschedule_as_faults:arg:ExpirationQueue'),
+ dict(id='C15-deadline-faulty-power-not-mirrored', pid=['C15', 'C04', 'C02'], file='actors/miner/src/deadline_state.rs',
+      old="""            self.faulty_power += &partition_new_faulty_power;
+            power_delta += &partition_power_delta;""",
+      new="""            power_delta += &partition_power_delta;""", expect=r'summary:deadline_state::Deadline::record_faults:memo:Deadline.faulty_power'),
+ dict(id='C02-deadline-end-skips-recovering', pid='C02', file='actors/miner/src/deadline_state.rs',
+      old="""            if partition.recovering_power.is_zero()
+                && partition.faulty_power == partition.live_power
+            {""",
+      new="""            if partition.recovering_power.is_zero()
+                || partition.faulty_power == partition.live_power
+            {""", expect=r'deadline-end:skip-only-if-all-faulty'),
+ dict(id='C02-post-double-prove-allowed', pid='C02', file='actors/miner/src/deadline_state.rs',
+      old="""        if !already_proven.is_empty() {
+            return Err(anyhow!(actor_error!(
+                illegal_argument,
+                "partition already proven: {:?}",
+                already_proven
+            )));
+        }
+""",
+      new="""        let _ = already_proven;
+""", expect=r'post:not-already-proven'),
+ dict(id='C02-post-not-recorded', pid=['C02', 'C04'], file='actors/miner/src/deadline_state.rs',
+      old="""            // Record the post.
+            self.partitions_posted.set(post.index);""",
+      new="""""", expect=r'post:marks-posted|partitions_posted'),
+ dict(id='R-C04-addassign-respelled', pid=['C04', 'C02'], file='actors/miner/src/partition_state.rs',
+      old="""        self.sectors |= &sector_numbers;
+        self.live_power += &power;
+
+        if !proven {""",
+      new="""        self.live_power = &self.live_power + &power;
+        self.sectors |= &sector_numbers;
+
+        if !proven {""", expect=None),
+ dict(id='R-C02-missed-post-renamed-hoisted', pid=['C02', 'C04', 'C15'], file='actors/miner/src/partition_state.rs',
+      old="""        let new_faulty_power = &self.live_power - &self.faulty_power;
+        // Penalized power is the newly faulty power, plus the failed recovery power.
+        let penalized_power = &self.recovering_power + &new_faulty_power;
+
+        // The power delta is -(newFaultyPower-unproven), because unproven power
+        // was never activated in the first place.
+        let power_delta = &self.unproven_power - &new_faulty_power;""",
+      new="""        let fresh_faults = Self::newly_faulty(&self.live_power, &self.faulty_power);
+        // The power delta is -(newFaultyPower-unproven), because unproven power
+        // was never activated in the first place.
+        let power_delta = &self.unproven_power - &fresh_faults;
+        // Penalized power is the newly faulty power, plus the failed recovery power.
+        let penalized_power = &fresh_faults + &self.recovering_power;
+        let new_faulty_power = fresh_faults;""",
+      extra=('actors/miner/src/partition_state.rs', """    pub fn pop_early_terminations<BS: Blockstore>(""",
+             """    fn newly_faulty(live: &PowerPair, faulty: &PowerPair) -> PowerPair {
+        live - faulty
+    }
+
+    pub fn pop_early_terminations<BS: Blockstore>("""), expect=None),
 ]
